@@ -581,6 +581,11 @@ func Substitutions() []Subst {
 	all := " @/?#%+é"
 	out = append(out, Subst{Label: "both:all", Name: "N" + all + "n", Version: "1" + all + "2"})
 	out = append(out, Subst{Label: "name:percent-escape-lookalike", Name: "a%2Fb%40c"})
+	// names made only of characters that name normalisations collapse or trim, names that start /
+	// end with them, upper-case-only names, single characters
+	for _, c := range normalisationNames {
+		out = append(out, Subst{Label: "name:" + c.l, Name: c.s})
+	}
 	// format / quoting / control characters and a very long string, in name and in version
 	for _, c := range formatClasses {
 		out = append(out, Subst{Label: "name:" + c.l, Name: c.s})
@@ -596,6 +601,14 @@ func Substitutions() []Subst {
 	}
 	out = append(out, Subst{Label: "locations3", Locations: []string{"d1/" + locs[0].s, "d2/" + locs[2].s, "d3/" + locs[3].s}})
 	return out
+}
+
+// normalisationNames: inputs on which a name normalisation (PyPI [-_.]+ -> -, lower-casing for
+// npm / golang / deb / apk ..., group:artifact splitting) can lose the whole name or a part of it.
+var normalisationNames = []struct{ l, s string }{
+	{"sep-underscore", "_"}, {"sep-underscores", "__"}, {"sep-dash", "-"}, {"sep-dot", "."}, {"sep-dots", ".."}, {"sep-mixed", "-.-"}, {"sep-run", "_.-_"},
+	{"lead-underscore", "_a"}, {"trail-underscore", "a_"}, {"lead-trail-dash", "-a-"}, {"lead-trail-dot", ".a."}, {"inner-run", "a_.-b"},
+	{"upper-only", "ABC"}, {"single-lower", "a"}, {"single-upper", "A"}, {"single-digit", "7"}, {"colon-only", ":"}, {"colon-lead", ":a"}, {"colon-trail", "a:"},
 }
 
 // formatClasses: characters with a meaning in format strings, templates, quoting and escaping,
